@@ -174,6 +174,9 @@ class RefServer:
         if kind == "store":
             _, v, k, f, e, d, c, noreply = req
             it = s.live(k)
+            if getattr(self, "max_item", None) is not None and len(d) > self.max_item:
+                # harness switch (off by default): the item size limit of a real server (-I, 1 MiB by default)
+                return b"" if noreply else b"SERVER_ERROR object too large for cache\r\n"
             if v == b"set" and k in getattr(self, "refuse_keys", ()):
                 r = b"NOT_STORED"        # harness switch (off by default): a server that declines to store some items
             elif v == b"set":
